@@ -684,6 +684,8 @@ Proof.
   destruct (run_bd_feed false true tl true (r0 :: rc) da false po0 b0 chunk) as [po1 H1].
   destruct (bd_feed b0 chunk) as [[b1 ev1] werr]. cbn [fst snd] in H1.
   destruct werr as [e|]; [|destruct cerr as [te|]].
+  1: cbv beta iota.
+  2: (cbv beta iota; destruct (t_copy_n (size - blen chunk) t1) as [[dg de] t1d]).
   1,2: destruct (last && cf_lmtp cfg).
   1,3: match goal with
        | H : smon_run _ _ _ = Some (mk_abs _ _ ?tl _ ?rcs (Some ?b1) ?da _ ?po1) |- context [bd_end ?b1 ?pe] =>
